@@ -99,6 +99,7 @@ def evaluate(case, tapes=None):
     n = run0.link.ncalls
     base = O.check_session(run0, scn)
     if base or run0.abort:
+        out['probes']['base_run_failed'] = 1
         # the fault-free scenario itself misbehaves: that is another property's finding, not a recovery question
         out['notes'] = base
         out['digest'] = run0.digest()
